@@ -1,3 +1,148 @@
-import PedalProofs.CaitDeep
+import PedalProofs.CaitSelf
+import PedalProofs.C10
+/-
+C11 — CAIT finds every occurrence that exists by construction.
+
+`findMatches` is the model of `pedal.cait.cait_api.find_matches` the driver executes (PedalModel/Cait.lean).
+Part 1 (this section): `any_node_match` tries `deep_find_match` at every node of the (trimmed) program, so a
+match of the trimmed pattern at ANY node of the program is a result of `find_matches`, with that node as
+`match_root`; hence a program, and every fragment (statement, expression) of it, matches itself.
+-/
 namespace Pedal.Cait
+
+/-! ### any_node_match reaches every node of the program -/
+
+theorem anyKids_intro (pf : String) (pp : Path) (p : T) (sp : Path) (m : AstMap) :
+    ∀ (kids : List T) (j i : Nat) (c : T), kids[i]? = some c → m ∈ anyNode pf pp p (sp ++ [j + i]) c →
+      m ∈ anyKids pf pp p sp j kids := by
+  intro kids
+  induction kids with
+  | nil => intro j i c h; simp at h
+  | cons a as ih =>
+    intro j i c h hm
+    rw [anyKids, List.mem_append]
+    cases i with
+    | zero =>
+      simp only [List.getElem?_cons_zero, Option.some.injEq] at h
+      subst h
+      exact Or.inl (by simpa using hm)
+    | succ i =>
+      simp only [List.getElem?_cons_succ] at h
+      refine Or.inr (ih (j + 1) i c h ?_)
+      have : j + 1 + i = j + (i + 1) := by omega
+      rw [this]; exact hm
+
+theorem anyNode_intro (pf : String) (pp : Path) (p : T) (m : AstMap) :
+    ∀ (q : Path) (s : T) (sp : Path) (sq : T), s.at? q = some sq → m ∈ deep true pf pp p (sp ++ q) sq →
+      m ∈ anyNode pf pp p sp s := by
+  intro q
+  induction q with
+  | nil =>
+    intro s sp sq h hm
+    simp only [T.at?, Option.some.injEq] at h
+    subst h
+    cases s with
+    | mk k f fl kids =>
+      rw [anyNode, List.mem_append]
+      exact Or.inl (by simpa using hm)
+  | cons i rest ih =>
+    intro s sp sq h hm
+    cases s with
+    | mk k f fl kids =>
+      simp only [T.at?] at h
+      cases hk : kids[i]? with
+      | none => simp [hk] at h
+      | some c =>
+        simp only [hk] at h
+        rw [anyNode, List.mem_append]
+        refine Or.inr (anyKids_intro pf pp p sp m kids 0 i c hk ?_)
+        simp only [Nat.zero_add]
+        exact ih c (sp ++ [i]) sq h (by simpa using hm)
+
+/-- A match of the trimmed pattern at the node `t` standing at `q` below the trimmed program root is one of
+the results of `find_matches`. -/
+theorem findMatches_intro (p s : T) (q : Path) (t : T) (m : AstMap)
+    (hat : (trimRoot s).1.at? q = some t)
+    (hm : m ∈ deep true (rootField p) (trimGo p []).2 (trimGo p []).1 ((trimRoot s).2 ++ q) t) :
+    (m, dictGet (trimGo p []).2 m.mappings) ∈ findMatches p s := by
+  simp only [findMatches, List.mem_map]
+  exact ⟨m, anyNode_intro _ _ _ _ q _ _ t hat hm, rfl⟩
+
+/-! ### shape assumptions are inherited by sub-trees -/
+
+theorem binOp3_at : ∀ (q : Path) (t t' : T), binOp3 t = true → t.at? q = some t' → binOp3 t' = true := by
+  intro q
+  induction q with
+  | nil => intro t t' h ha; simp only [T.at?, Option.some.injEq] at ha; subst ha; exact h
+  | cons i rest ih =>
+    intro t t' h ha
+    cases t with
+    | mk k f fl kids =>
+      simp only [T.at?] at ha
+      cases hk : kids[i]? with
+      | none => simp [hk] at ha
+      | some c =>
+        simp only [hk] at ha
+        exact ih c t' ((binOp3_kids h).1 c (List.mem_of_getElem? hk)) ha
+
+theorem T.setField_setField (t : T) (f g : String) : (t.setField f).setField g = t.setField g := by
+  cases t; rfl
+
+theorem T.field_setField (t : T) (f : String) : (t.setField f).field = f := by cases t; rfl
+
+theorem trimGo_nil_of_path_nil (s : T) (h : (trimGo s []).2 = []) : (trimGo s []).1 = s := by
+  obtain ⟨q, h1, h2, _⟩ := trimGo_spec s []
+  rw [h] at h1
+  simp only [List.nil_append] at h1
+  subst h1
+  simpa [T.at?] using h2.symm
+
+/-! ### C11, self-match -/
+
+/-- **C11 (a fragment of the program used as the pattern).**  Let `t` be any node of the program (at `q`
+below the trimmed root: a statement, an expression, the whole program) and `p` a pattern whose trimmed root
+is a copy of `t` (the root may carry another field name, as it does when the fragment is parsed on its own).
+Then `find_matches` returns a match rooted at that very node, without conflicts, and in it every identifier
+that looks like a placeholder is bound to itself. -/
+theorem c11_fragment_matches (p s : T) (q : Path) (t : T) (hb : binOp3 p = true) (ho : opLeaves p = true)
+    (hat : (trimRoot s).1.at? q = some t)
+    (hcopy : ∃ f, (trimGo p []).1 = t.setField f)
+    (hfield : rootField p = "none" ∨ rootField p = t.field) :
+    ∃ mr ∈ findMatches p s, mr.2 = some ((trimRoot s).2 ++ q) ∧ IdentBinds mr.1 ∧ mr.1.conflicts = [] := by
+  obtain ⟨qp, _, hp2, hp3⟩ := trimGo_spec p []
+  obtain ⟨f, hf⟩ := hcopy
+  have hb' : binOp3 (trimGo p []).1 = true := binOp3_at qp p _ hb hp2
+  have hmeta : metasMatch true (rootField p) (((trimGo p []).1).setField t.field) = true := by
+    rcases hfield with h | h
+    · rw [h]; exact metasMatch_none _ _
+    · rw [h]
+      have := metasMatch_same true (((trimGo p []).1).setField t.field)
+      rwa [T.field_setField] at this
+  obtain ⟨m, hm, hid⟩ := deep_self _ hb' true (rootField p) t.field (trimGo p []).2 ((trimRoot s).2 ++ q) hmeta
+  have ht : ((trimGo p []).1).setField t.field = t := by
+    rw [hf, T.setField_setField, T.setField_self]
+  rw [ht] at hm
+  have hg := deep_good _ (hp3 ho) _ _ _ _ _ _ hm
+  refine ⟨_, findMatches_intro p s q t m hat hm, ?_, hid, hg.noconf⟩
+  exact embAt_root hg.emb
+
+/-- **C11 (the whole program as the pattern).** -/
+theorem c11_program_matches_itself (s : T) (hb : binOp3 s = true) (ho : opLeaves s = true) :
+    ∃ mr ∈ findMatches s s, mr.2 = some (trimRoot s).2 ∧ IdentBinds mr.1 ∧ mr.1.conflicts = [] := by
+  have h := c11_fragment_matches s s [] (trimRoot s).1 hb ho rfl
+    (by
+      refine ⟨(trimGo s []).1.field, ?_⟩
+      simp only [trimRoot]
+      split
+      · rw [T.setField_self]
+      · rw [T.setField_setField, T.setField_self])
+    (by
+      simp only [rootField, trimRoot]
+      split
+      · rename_i h
+        right
+        rw [trimGo_nil_of_path_nil s (by simpa using h)]
+      · left; rfl)
+  simpa using h
+
 end Pedal.Cait
